@@ -53,7 +53,13 @@ def seeded_cfg(name, seed, stride=None):
 def model_check(ctx, cov):
     runs = []
     cfg = "Needed_quick.cfg" if ctx.quick else "Needed_thorough.cfg"
-    r = tlc.run_tlc("MCNeeded", seeded_cfg(cfg, ctx.seed), workers=8, timeout=900 if ctx.quick else 2400, jvm_opts=GC)
+    # the main enumeration and the small auxiliary runs (liveness slice, two anti-vacuity runs) in parallel
+    r, rl, rs, rb = symgen.tlc_parallel([
+        (("MCNeeded", seeded_cfg(cfg, ctx.seed)), dict(workers=5, timeout=900 if ctx.quick else 2400, jvm_opts=GC)),
+        (("MCNeeded", "mc/Needed_live.cfg"), dict(workers=1, timeout=900, coverage=False, jvm_opts=GC)),
+        (("MCNeeded", "mc/Needed_strict.cfg"), dict(workers=1, timeout=900, coverage=False, jvm_opts=GC)),
+        (("MCNeeded", "mc/Needed_broken.cfg"), dict(workers=1, timeout=900, coverage=False, jvm_opts=GC)),
+    ])
     runs.append({"cfg": cfg, **r.summary()})
     if not r.ok:
         raise ToolError(f"Needed model check failed ({cfg}): {r.violated} {r.error_text}\n{r.trace_text[:3000]}\n{r.out[-1500:]}")
@@ -63,7 +69,6 @@ def model_check(ctx, cov):
     records = r.records
     states, trans = r.distinct, r.generated
     # termination (liveness) on a slice
-    rl = tlc.run_tlc("MCNeeded", "mc/Needed_live.cfg", workers=4, timeout=600, coverage=False, jvm_opts=GC)
     runs.append({"cfg": "Needed_live.cfg", **rl.summary()})
     if not rl.ok:
         raise ToolError(f"Needed liveness check failed: {rl.violated} {rl.error_text}\n{rl.trace_text[:2000]}")
@@ -71,11 +76,10 @@ def model_check(ctx, cov):
     trans += rl.generated
     # anti-vacuity: (1) without the deviation class the conformance invariant must fail (the model
     # reproduces the recorded defect); (2) a wrong declarative rule must be refuted.
-    for cfgname, inv in (("mc/Needed_strict.cfg", "StrictConforms"), ("mc/Needed_broken.cfg", "BrokenRuleHolds")):
-        rb = tlc.run_tlc("MCNeeded", cfgname, workers=4, timeout=600, coverage=False, jvm_opts=GC)
-        if rb.ok or rb.violated != inv:
-            raise ToolError(f"anti-vacuity run {cfgname} did not report {inv}: ok={rb.ok} violated={rb.violated} {rb.error_text}")
-        runs.append({"cfg": cfgname, "expected_violation": rb.violated, "states_to_find": rb.distinct})
+    for rx, cfgname, inv in ((rs, "mc/Needed_strict.cfg", "StrictConforms"), (rb, "mc/Needed_broken.cfg", "BrokenRuleHolds")):
+        if rx.ok or rx.violated != inv:
+            raise ToolError(f"anti-vacuity run {cfgname} did not report {inv}: ok={rx.ok} violated={rx.violated} {rx.error_text}")
+        runs.append({"cfg": cfgname, "expected_violation": rx.violated, "states_to_find": rx.distinct})
     cov["states"], cov["transitions"], cov["tlc_runs"] = states, trans, runs
     return records
 
